@@ -1,13 +1,15 @@
 #!/bin/sh
-# lead-only helper: apply the named fix patches to /repo, run the full suite once, commit each as its own "fix:" commit
+# lead-only helper: apply the named fix patches to /repo (skipping ones already applied), run the full suite once (abort on failure),
+# commit each patch's files as its own "fix:" commit
 set -e
 cd /repo
-for n in "$@"; do git apply --check /verif/fixes/$n.patch; done
-for n in "$@"; do git apply /verif/fixes/$n.patch; done
-/venv/bin/python -m pytest -q -p no:cacheprovider --timeout=900 2>&1 | tail -2
+for n in "$@"; do
+  if git apply --check /verif/fixes/$n.patch 2>/dev/null; then git apply /verif/fixes/$n.patch; else echo "note: $n does not apply (already applied?)"; fi
+done
+/venv/bin/python -m pytest -q -p no:cacheprovider --timeout=900 > /tmp/apply_fixes_pytest.log 2>&1 || { tail -5 /tmp/apply_fixes_pytest.log; echo "SUITE FAILED - nothing committed"; exit 1; }
+tail -1 /tmp/apply_fixes_pytest.log
 for n in "$@"; do
   files=$(grep '^+++ b/' /verif/fixes/$n.patch | sed 's#^+++ b/##')
   git add $files
-  git commit -q -F /verif/fixes/$n.msg
-  echo "$n -> $(git log --oneline | head -1)"
+  if git diff --cached --quiet; then echo "$n: nothing to commit"; else git commit -q -F /verif/fixes/$n.msg; echo "$n -> $(git log --oneline | head -1)"; fi
 done
